@@ -19,6 +19,12 @@ import tempfile
 from . import pipeline as P
 
 TARGETED = [
+    # ties that used to be broken by the order of a set (scope of an overused constant; spelling of a restored string; missing imports)
+    "def f():\n" + "".join(f"    print('this is a rather long constant string', {i})\n" for i in range(6)) + "f()\n",
+    "def weekday_name(index):\n" + "".join(f"    if index == {i}:\n        return (1001, 1002, 1003, 1004, 1005, 1006)[{i}]\n" for i in range(5)) + "    return None\n\n\nprint(weekday_name(1))\n",
+    'def tagged(values):\n    result = []\n    for value in values:\n        result.append(value + "-suffix")\n    return result\n\n\nprint(tagged(["a", "b"]), """-suffix""")\n',
+    'def tagged(values, tag):\n    result = []\n    for value in values:\n        result.append(f"{value}-{tag}")\n    return result\n\n\ndef single(value, tag):\n    return f"""{value}-{tag}"""\n\n\nprint(tagged(["a", "b"], "x"), single("c", "y"))\n',
+    '"""Tool.\n\nPrints the working directory and the arguments.\n"""\nprint(os.getcwd(), sys.argv, re.escape("a"), json.dumps(1), math.pi, time.time(), random.random())\n',
     # several function-local imports hoisted to one module-level position by one transaction; the functions are used, so they survive
     '"""Loaders."""\n\n\ndef load_json(path):\n    import json as parser\n\n    with open(path, "rb") as stream:\n        return parser.load(stream)\n\n\ndef load_toml(path):\n    import tomllib as parser\n\n'
     '    with open(path, "rb") as stream:\n        return parser.load(stream)\n\n\nprint(load_json("a.json"), load_toml("a.toml"))\n',
